@@ -185,6 +185,15 @@ func init() {
 		"(*math/big.Int).Int64": func(ex *Exec, c *frame, fn *ssa.Function, a []Value) Value {
 			return *(a[0].(*Value))
 		},
+		// wall clock: an arbitrary but fixed instant (nothing in the properties depends on the time)
+		"time.now": func(ex *Exec, c *frame, fn *ssa.Function, a []Value) Value {
+			ex.clock++
+			return Tuple{smt.BVC(64, 1790000000), smt.BVC(32, uint64(ex.clock%1000)), smt.BVC(64, uint64(1000+ex.clock))}
+		},
+		"time.runtimeNano": func(ex *Exec, c *frame, fn *ssa.Function, a []Value) Value {
+			ex.clock++
+			return smt.BVC(64, uint64(1000+ex.clock))
+		},
 		"crypto/rand.Int": func(ex *Exec, c *frame, fn *ssa.Function, a []Value) Value {
 			max := (*(a[1].(*Value))).(*smt.Term)
 			if ex.P.branch(smt.SLe(max, smt.BVC(64, 0))) {
